@@ -11,6 +11,7 @@ This is predicate abstraction over a finite domain that partitions the inputs by
 predicates the fragment itself uses; it is not a run of the library.
 """
 import ast
+import builtins as _builtins
 import operator as _op
 
 from . import Unmodelled
@@ -57,6 +58,30 @@ class PyModel:
     """Base class for rule-provided models whose methods the interpreter may call."""
 
 
+class BoundMethod:
+    """`obj.method` taken as a value: a method of a package class bound to an abstract instance (or class)."""
+
+    def __init__(self, recv, module, fnode, cref):
+        self.recv = recv
+        self.module = module
+        self.fnode = fnode
+        self.cref = cref
+
+    def __repr__(self):
+        return f'BoundMethod({self.cref}.{self.fnode.name})'
+
+
+class World:
+    """State that outlives one interpreted call: module-level mutable objects, names rebound through `global`,
+    class attributes assigned at run time. Rules that interpret two calls in a row hand the same World to both."""
+
+    def __init__(self):
+        self.globals = {}
+        self.classattrs = {}
+        self.steps = 0
+        self.initialised = set()
+
+
 class ExcRaised(Exception):
     def __init__(self, exc):
         self.exc = exc
@@ -97,6 +122,13 @@ _STR_METHODS = {'startswith', 'endswith', 'find', 'upper', 'lower', 'strip', 'ti
                 'isdigit', 'isalpha'}
 
 
+_DUNDER_OF = {'str': '__str__', 'int': '__int__', 'float': '__float__', 'len': '__len__', 'abs': '__abs__',
+              'round': '__round__', 'repr': '__repr__', 'hash': '__hash__', 'bool': '__bool__', 'iter': '__iter__',
+              'list': '__iter__', 'tuple': '__iter__'}
+_BINOP_DUNDER = {ast.Add: 'add', ast.Sub: 'sub', ast.Mult: 'mul', ast.Div: 'truediv', ast.FloorDiv: 'floordiv', ast.Mod: 'mod',
+                 ast.Pow: 'pow', ast.BitAnd: 'and', ast.BitOr: 'or', ast.BitXor: 'xor', ast.LShift: 'lshift', ast.RShift: 'rshift'}
+_CMP_DUNDER = {ast.Eq: ('__eq__', '__eq__'), ast.NotEq: ('__ne__', '__ne__'), ast.Lt: ('__lt__', '__gt__'),
+               ast.LtE: ('__le__', '__ge__'), ast.Gt: ('__gt__', '__lt__'), ast.GtE: ('__ge__', '__le__')}
 _NUM_DUNDERS = {'__trunc__', '__neg__', '__pos__', '__abs__', '__round__', '__floor__', '__ceil__', 'is_integer'}
 
 
@@ -125,9 +157,11 @@ class Outcome:
 
 
 class Interp:
+    max_depth = 14
+
     def __init__(self, analysis, module, env, effect_receivers=(), self_class=None,
                  isinstance_fn=None, call_models=None, raise_classifier=None, inline_pkg=False, depth=0,
-                 record_unknown=False, scope_fn=None):
+                 record_unknown=False, scope_fn=None, world=None):
         """
         env                initial locals
         effect_receivers   names whose method calls are recorded as events ('stack', 'output')
@@ -144,8 +178,14 @@ class Interp:
         self.inline_pkg = inline_pkg
         self.record_unknown = record_unknown
         self.scope_fn = scope_fn
+        self.scopes = [scope_fn] if scope_fn is not None else []
         self.depth = depth
         self.out = Outcome()
+        self.world = world if world is not None else World()
+        self.def_class = None       # class in whose body the interpreted function is defined (for super())
+        self.first_param = None     # name of the first parameter (self / cls) of the interpreted method
+        self.global_names = set()
+        self._on_yield = None
 
     # -- statements ------------------------------------------------------
     def run(self, stmts):
@@ -168,6 +208,9 @@ class Interp:
             self.stmt(s)
 
     def stmt(self, s):
+        self.world.steps += 1
+        if self.world.steps > 400000:
+            raise Unmodelled('interpretation budget exceeded (400000 statements)')
         if isinstance(s, ast.Assign):
             val = self.ev(s.value)
             for t in s.targets:
@@ -177,6 +220,8 @@ class Interp:
             val = self.ev(s.value)
             if isinstance(cur, (Opaque, Ref)) or isinstance(val, (Opaque, Ref)):
                 self.store(s.target, Opaque('aug'))
+            elif isinstance(cur, Rec) or isinstance(val, Rec):
+                self.store(s.target, self._binop(s.op, cur, val))
             else:
                 self.store(s.target, _BIN[type(s.op)](cur, val))
         elif isinstance(s, ast.If):
@@ -250,48 +295,67 @@ class Interp:
             if not self.truth(self.ev(s.test)):
                 raise ExcRaised(Ref('builtin:AssertionError'))
         elif isinstance(s, (ast.With, ast.AsyncWith)):
-            for item in s.items:
-                val = self.ev(item.context_expr)
-                if item.optional_vars is not None:
-                    self.store(item.optional_vars, val)
-            self.block(s.body)
+            self._with(s, 0)
         elif isinstance(s, ast.Try):
             # model: body runs; a raised *python-level* exception class is matched by name
             try:
-                self.block(s.body)
-            except ExcRaised as r:
-                handled = False
-                for h in s.handlers:
-                    if h.type is None or self._exc_matches(r.exc, h.type):
-                        if h.name:
-                            self.env[h.name] = r.exc
-                        self.block(h.body)
-                        handled = True
-                        break
-                if not handled:
-                    raise
-            else:
-                self.block(s.orelse)
+                try:
+                    self.block(s.body)
+                except ExcRaised as r:
+                    handled = False
+                    for h in s.handlers:
+                        if h.type is None or self._exc_matches(r.exc, h.type):
+                            if h.name:
+                                self.env[h.name] = r.exc
+                            self._handling = getattr(self, '_handling', []) + [r.exc]
+                            try:
+                                self.block(h.body)
+                            finally:
+                                self._handling = self._handling[:-1]
+                            handled = True
+                            break
+                    if not handled:
+                        raise
+                else:
+                    self.block(s.orelse)
             finally:
-                pass
-            self.block(s.finalbody)
-        elif isinstance(s, ast.FunctionDef) and not s.decorator_list and self.scope_fn is not None \
-                and any(n_ is s for n_ in ast.walk(self.scope_fn)):
+                # the finally clause runs on every way out (fall through, return, break, continue, exception)
+                self.block(s.finalbody)
+        elif isinstance(s, ast.FunctionDef) and not s.decorator_list and self.scopes \
+                and any(n_ is s for sc in self.scopes for n_ in ast.walk(sc)):
             # definition of a local helper: nothing happens now; calls of it are inlined as closures (see call())
             pass
+        elif isinstance(s, ast.Global):
+            self.global_names.update(s.names)
+        elif isinstance(s, ast.Delete):
+            for t in s.targets:
+                if isinstance(t, ast.Name):
+                    self.env.pop(t.id, None)
+                elif isinstance(t, ast.Subscript):
+                    base = self.ev(t.value)
+                    if isinstance(base, (dict, list)):
+                        try:
+                            del base[self.ev(t.slice)]
+                        except (KeyError, IndexError) as exc:
+                            raise ExcRaised(Ref(f'builtin:{type(exc).__name__}'))
+                    else:
+                        raise Unmodelled(f'del on {base!r}')
+                else:
+                    raise Unmodelled('del target')
         else:
             raise Unmodelled(f'statement {type(s).__name__} at line {s.lineno}')
 
     def _exc_matches(self, exc, type_node):
-        if self.isinstance_fn is None:
-            raise Unmodelled('exception matching needs a class model')
         ref = self.a.res.resolve(type_node, self.m) if not isinstance(type_node, ast.Tuple) else \
             tuple(self.a.res.resolve(e, self.m) for e in type_node.elts)
-        return self.isinstance_fn(exc, ref)
+        if self.isinstance_fn is None or (isinstance(exc, Ref) and exc.ref.startswith('builtin:')):
+            return self._isinstance(exc, ref)
+        return self.isinstance_fn(exc, ref) or (isinstance(exc, Ref) and self._isinstance(exc, ref))
 
     def ev_exc(self, node):
         if node is None:
-            return Opaque('reraise')
+            handling = getattr(self, '_handling', [])
+            return handling[-1] if handling else Opaque('reraise')
         if isinstance(node, ast.Call):
             ref = self.a.res.resolve(node.func, self.m)
             if ref:
@@ -304,11 +368,19 @@ class Interp:
 
     def store(self, t, val):
         if isinstance(t, ast.Name):
-            self.env[t.id] = val
+            if t.id in self.global_names:
+                ref = self.a.res.resolve(t, self.m) or f'pkg:{self.m.name}:{t.id}'
+                self.world.globals[ref] = val
+            else:
+                self.env[t.id] = val
         elif isinstance(t, ast.Attribute):
             base = self.ev(t.value)
             if isinstance(base, Rec):
                 base.set(t.attr, val)
+            elif isinstance(base, Ref) and self._is_pkg_class(base.ref):
+                self.world.classattrs[(base.ref, t.attr)] = val
+            elif isinstance(base, PyModel):
+                setattr(base, t.attr, val)
             else:
                 raise Unmodelled(f'attribute store on {base!r}')
         elif isinstance(t, (ast.Tuple, ast.List)):
@@ -350,19 +422,26 @@ class Interp:
         if isinstance(n, ast.Constant):
             return n.value
         if isinstance(n, ast.Name):
-            if n.id in self.env:
+            if n.id in self.env and n.id not in self.global_names:
                 return self.env[n.id]
-            if self.scope_fn is not None:
+            if self.scopes and n.id not in self.global_names:
                 lazy = self._lazy_local(n.id)
                 if lazy is not None:
                     return self.ev(lazy)
+            gref = self.a.res.resolve(n, self.m)
+            if gref in self.world.globals:
+                return self.world.globals[gref]
             try:
-                return self.a.folder.fold(n, self.m)
+                val = self.a.folder.fold(n, self.m)
             except Unfoldable:
-                ref = self.a.res.resolve(n, self.m)
-                if ref:
-                    return Ref(ref)
+                if gref:
+                    return Ref(gref)
                 raise Unmodelled(f'unbound name {n.id}')
+            if isinstance(val, (dict, list, set)) and gref and gref.startswith('pkg:'):
+                # a module-level mutable object: one object per world, so that what one call stores the next one finds
+                self.world.globals[gref] = val
+                self._module_init(gref, val)
+            return val
         if isinstance(n, ast.Attribute):
             if isinstance(n.value, ast.Name) and n.value.id in ('self', 'cls') \
                     and n.value.id not in self.env and self.self_class:
@@ -373,10 +452,29 @@ class Interp:
                 base = None
             if isinstance(base, Rec):
                 if n.attr not in base.f and isinstance(base.f.get('cls'), str):
-                    cm_, val_ = self.a.res.class_attr(base.f['cls'], n.attr)
-                    if val_ is not None and not isinstance(val_, (ast.FunctionDef, ast.ClassDef)):
-                        return self.a.folder.fold(val_, cm_, None, base.f['cls'])
+                    return self._class_level_attr(base, base.f['cls'], n.attr)
                 return base.get(n.attr)
+            if isinstance(base, Ref) and self._is_pkg_class(base.ref):
+                if n.attr == '__name__':
+                    return base.ref.rpartition(':')[2].rpartition('.')[2]
+                for cm_, cnode_ in self.a.res.mro(base.ref):
+                    key_ = (self.a.res.class_ref(cm_, cnode_), n.attr)
+                    if key_ in self.world.classattrs:
+                        return self.world.classattrs[key_]
+                cm_, val_ = self.a.res.class_attr(base.ref, n.attr)
+                if val_ is not None and not isinstance(val_, (ast.FunctionDef, ast.ClassDef)):
+                    v_ = self.a.folder.fold(val_, cm_, None, base.ref)
+                    if isinstance(v_, (dict, list, set)):
+                        for cm2_, cnode2_ in self.a.res.mro(base.ref):
+                            if any(isinstance(st_, ast.Assign) and any(isinstance(t_, ast.Name) and t_.id == n.attr for t_ in st_.targets)
+                                   for st_ in cnode2_.body):
+                                self.world.classattrs[(self.a.res.class_ref(cm2_, cnode2_), n.attr)] = v_
+                                break
+                    return v_
+                if isinstance(val_, ast.FunctionDef):
+                    return Ref(f'{base.ref}.{n.attr}')
+            if isinstance(base, Ref) and n.attr == '__name__' and base.ref.startswith(('pkg:', 'builtin:')):
+                return base.ref.rpartition(':')[2].rpartition('.')[2]
             if isinstance(base, Obj):
                 if n.attr in base.fields:
                     return base.fields[n.attr]
@@ -414,6 +512,12 @@ class Interp:
             v = self.ev(n.operand)
             if isinstance(n.op, ast.Not):
                 return not self.truth(v)
+            if isinstance(v, Rec):
+                name_ = {ast.USub: '__neg__', ast.UAdd: '__pos__', ast.Invert: '__invert__'}[type(n.op)]
+                found, res = self._dunder(v, name_)
+                if found:
+                    return res
+                raise Unmodelled(f'unary {name_} on {v!r}')
             if isinstance(v, (Opaque, Ref)):
                 raise Unmodelled('unary op on symbolic value')
             if isinstance(n.op, ast.USub):
@@ -424,23 +528,15 @@ class Interp:
                 return ~v
         if isinstance(n, ast.BinOp):
             l, r = self.ev(n.left), self.ev(n.right)
-            if isinstance(l, (Opaque, Ref, Rec)) or isinstance(r, (Opaque, Ref, Rec)):
-                return Opaque('binop')
-            try:
-                return _BIN[type(n.op)](l, r)
-            except ZeroDivisionError:
-                raise ExcRaised(Ref('builtin:ZeroDivisionError'))
+            return self._binop(n.op, l, r)
         if isinstance(n, ast.Compare):
             left = self.ev(n.left)
             for op, comp in zip(n.ops, n.comparators):
                 right = self.ev(comp)
-                if isinstance(left, Opaque) or isinstance(right, Opaque):
-                    raise Unmodelled(f'comparison with opaque value: {ast.unparse(n)[:60]}')
-                try:
-                    ok = _CMP[type(op)](left, right)
-                except TypeError:
-                    raise Unmodelled(f'comparison {ast.unparse(n)[:60]} on {left!r},{right!r}')
-                if not ok:
+                ok = self._compare(op, left, right, n)
+                if len(n.ops) == 1:
+                    return ok
+                if not self.truth(ok):
                     return False
                 left = right
             return True
@@ -454,8 +550,18 @@ class Interp:
                 st = self.ev(n.slice.step) if n.slice.step else None
                 if isinstance(base, (Opaque, Ref)):
                     return Opaque('slice')
+                if isinstance(base, Rec):
+                    found, res = self._dunder(base, '__getitem__', slice(lo, hi, st))
+                    if found:
+                        return res
+                    raise Unmodelled(f'slice of {base!r}')
                 return base[lo:hi:st]
             idx = self.ev(n.slice)
+            if isinstance(base, Rec):
+                found, res = self._dunder(base, '__getitem__', idx)
+                if found:
+                    return res
+                raise Unmodelled(f'subscript of {base!r}')
             if isinstance(base, (Opaque, Ref)) or isinstance(idx, (Opaque,)):
                 return Opaque('subscript')
             try:
@@ -485,6 +591,9 @@ class Interp:
             return outd
         if isinstance(n, ast.Lambda):
             return LambdaVal(n, dict(self.env))
+        if isinstance(n, ast.Yield) and self._on_yield is not None:
+            self._on_yield(self.ev(n.value) if n.value is not None else None)
+            return None
         if isinstance(n, ast.Yield) and hasattr(self, '_yielded'):
             self._yielded.append(self.ev(n.value) if n.value is not None else None)
             return None
@@ -533,18 +642,31 @@ class Interp:
                 return getattr(recv, fn.attr)(*args, **kwargs)
             if isinstance(recv, Opaque) and recv.label not in ('aug',) and not isinstance(fn.value, ast.Name):
                 return Opaque(f'{recv.label}.{fn.attr}()')
-            if isinstance(recv, Rec) and 'cls' in recv.f and isinstance(recv.f['cls'], str) and self.depth < 4 \
+            if isinstance(fn.value, ast.Call) and isinstance(fn.value.func, ast.Name) and fn.value.func.id == 'super' \
+                    and not fn.value.args and 'super' not in self.env:
+                return self._super_call(fn.attr, args, kwargs)
+            if isinstance(recv, Rec) and 'cls' in recv.f and isinstance(recv.f['cls'], str) and self.depth < self.max_depth \
                     and not (isinstance(fn.value, ast.Name) and fn.value.id in self.effects):
-                cm_, meth_ = self.a.res.class_attr(recv.f['cls'], fn.attr)
+                if fn.attr in recv.f and isinstance(recv.f[fn.attr], (LambdaVal, BoundMethod, PyModel, Ref)):
+                    return self.invoke(recv.f[fn.attr], args, kwargs)
                 key_ = f"{recv.f['cls']}.{fn.attr}"
                 if key_ in self.call_models:
                     return self.call_models[key_](recv, *args, **kwargs)
-                if isinstance(meth_, ast.FunctionDef):
-                    sub_sc, self.self_class = self.self_class, recv.f['cls']
-                    try:
-                        return self._inline(cm_, meth_, [recv] + args, kwargs)
-                    finally:
-                        self.self_class = sub_sc
+                cm_, meth_ = self._find_method(recv.f['cls'], fn.attr)
+                if meth_ is not None:
+                    return self._call_method(recv, recv.f['cls'], cm_, meth_, args, kwargs)
+            if isinstance(recv, Ref) and self._is_pkg_class(recv.ref) and self.depth < self.max_depth:
+                key_ = f'{recv.ref}.{fn.attr}'
+                if key_ in self.call_models:
+                    return self.call_models[key_](*args, **kwargs)
+                cm_, meth_ = self._find_method(recv.ref, fn.attr)
+                if meth_ is not None:
+                    defref_ = self._def_class_of(cm_, meth_)
+                    for alt_ in (f'{defref_}.{fn.attr}',):
+                        if alt_ in self.call_models:
+                            return self.call_models[alt_](*args, **kwargs)
+                    if self.inline_pkg or self.depth > 0 or self._decorated(meth_, 'classmethod'):
+                        return self._call_method(None, recv.ref, cm_, meth_, args, kwargs)
             if isinstance(recv, (str, int, float)) and not isinstance(recv, bool) and (
                     fn.attr in _STR_METHODS or fn.attr in _NUM_DUNDERS):
                 try:
@@ -574,6 +696,8 @@ class Interp:
             callee = self._safe_ev(fn)
             if isinstance(callee, Ref):
                 ref = callee.ref
+            elif isinstance(callee, (BoundMethod, LambdaVal)) or (isinstance(callee, PyModel) and callable(callee)):
+                return self.invoke(callee, args, kwargs)
         elif isinstance(fn, ast.Attribute):
             callee = self._safe_ev(fn)
             if isinstance(callee, Ref) and not callee.ref.startswith('ext:'):
@@ -586,11 +710,20 @@ class Interp:
                 ref = bound.ref
             elif callable(bound) and isinstance(bound, PyModel):
                 return bound(*args, **kwargs)
+            elif isinstance(bound, BoundMethod):
+                return self.invoke(bound, args, kwargs)
         elif isinstance(fn, (ast.Name, ast.Attribute)):
             ref = self.a.res.resolve(fn, self.m)
         for key in (ref, text):
             if key in self.call_models:
                 return self.call_models[key](*args, **kwargs)
+        if ref == 'builtin:type' and len(args) == 1 and 'builtin:type' not in self.call_models:
+            return self._type_of(args[0])
+        if ref and ref.startswith('builtin:') and ref[8:] in _DUNDER_OF and len(args) >= 1 and isinstance(args[0], Rec) \
+                and isinstance(args[0].f.get('cls'), str):
+            found, res = self._builtin_on_rec(ref[8:], args)
+            if found:
+                return res
         if ref and ref.startswith('builtin:') and ref[8:] in _PURE and _PURE[ref[8:]] is not None \
                 and not (isinstance(fn, ast.Name) and fn.id == ref[8:]):
             if not any(isinstance(a_, (Opaque, Ref, Rec)) for a_ in args):
@@ -603,49 +736,23 @@ class Interp:
         if ref and ref.startswith('pkg:'):
             om_, onode_ = self.a.res.lookup(ref)
             if isinstance(onode_, ast.ClassDef):
-                self.out.events.append(('construct', (ref,) + tuple(args)))
-                inst = Rec(cls=ref, args=tuple(args), kwargs=kwargs)
-                # dataclass-style: annotated fields (init=True) take the positional / keyword arguments in order
-                cm0, init0 = self.a.res.class_attr(ref, '__init__')
-                if not isinstance(init0, ast.FunctionDef):
-                    fields = []
-                    for m_, cnode in reversed(self.a.res.mro(ref)):
-                        for st in cnode.body:
-                            if isinstance(st, ast.AnnAssign) and isinstance(st.target, ast.Name):
-                                noinit = isinstance(st.value, ast.Call) and any(
-                                    k.arg == 'init' and isinstance(k.value, ast.Constant) and k.value.value is False for k in st.value.keywords)
-                                if not noinit:
-                                    fields.append(st.target.id)
-                    for name_, val_ in zip(fields, args):
-                        inst.set(name_, val_)
-                    for name_, val_ in kwargs.items():
-                        if name_ in fields:
-                            inst.set(name_, val_)
-                for ctor in ('__new__', '__init__'):
-                    cm_, cfn = self.a.res.class_attr(ref, ctor)
-                    if isinstance(cfn, ast.FunctionDef):
-                        params = [a.arg for a in cfn.args.args][1:]
-                        bound = dict(zip(params, args))
-                        bound.update(kwargs)
-                        for st in ast.walk(cfn):
-                            if isinstance(st, ast.Assign) and len(st.targets) == 1 and isinstance(st.targets[0], ast.Attribute) \
-                                    and isinstance(st.targets[0].value, ast.Name) and isinstance(st.value, ast.Name) \
-                                    and st.value.id in bound and st.targets[0].attr not in inst.f:
-                                inst.set(st.targets[0].attr, bound[st.value.id])
-                return inst
-        if self.inline_pkg and ref and self.depth < 4:
+                return self._construct(ref, args, kwargs)
+        if self.inline_pkg and ref and self.depth < self.max_depth:
             om, onode = self.a.res.lookup(ref)
             if isinstance(onode, ast.FunctionDef):
-                is_cm = any(isinstance(d, ast.Name) and d.id == 'classmethod' for d in onode.decorator_list)
-                if is_cm:
+                if self._decorated(onode, 'classmethod') or self._decorated(onode, 'staticmethod'):
+                    cref_ = ref.rpartition('.')[0]
+                    if self._is_pkg_class(cref_):
+                        return self._call_method(None, cref_, om, onode, args, kwargs)
                     raise Unmodelled(f'call of classmethod {ref} needs a model')
                 return self._inline(om, onode, args, kwargs)
-        if self.depth < 4:
+        if self.depth < self.max_depth:
             # nested closure of the analysed function / private method of the analysed class
-            if isinstance(fn, ast.Name) and self.scope_fn is not None and fn.id not in self.env:
-                for n_ in ast.walk(self.scope_fn):
-                    if isinstance(n_, ast.FunctionDef) and n_ is not self.scope_fn and n_.name == fn.id:
-                        return self._inline(self.m, n_, args, kwargs, closure=True)
+            if isinstance(fn, ast.Name) and self.scopes and fn.id not in self.env:
+                for sc_ in self.scopes:
+                    for n_ in ast.walk(sc_):
+                        if isinstance(n_, ast.FunctionDef) and n_ is not sc_ and n_.name == fn.id:
+                            return self._inline(self.m, n_, args, kwargs, closure=True)
             if isinstance(fn, ast.Attribute) and isinstance(fn.value, ast.Name) and fn.value.id in ('self', 'cls') \
                     and self.self_class and fn.attr.startswith('_') and not fn.attr.startswith('__'):
                 cm, meth = self.a.res.class_attr(self.self_class, fn.attr)
@@ -661,6 +768,11 @@ class Interp:
             if isinstance(obj, Rec):
                 if args[1] in obj.f:
                     return obj.f[args[1]]
+                if isinstance(obj.f.get('cls'), str):
+                    try:
+                        return self._class_level_attr(obj, obj.f['cls'], args[1])
+                    except Unmodelled:
+                        pass
                 if len(args) == 3:
                     return args[2]
                 raise ExcRaised(Ref('builtin:AttributeError'))
@@ -682,16 +794,26 @@ class Interp:
             return self.invoke(self.env[fn.id], args)
         if isinstance(fn, ast.Name) and fn.id in _PURE and fn.id not in self.env:
             if fn.id == 'isinstance':
-                if self.isinstance_fn is None:
-                    raise Unmodelled('isinstance needs a class model')
                 cls = n.args[1]
-                if isinstance(cls, ast.Tuple):
+                if isinstance(cls, ast.Tuple) and all(isinstance(e, (ast.Name, ast.Attribute)) for e in cls.elts):
                     refs = tuple(self.a.res.resolve(e, self.m) for e in cls.elts)
-                else:
+                elif isinstance(cls, (ast.Name, ast.Attribute)) and not (isinstance(cls, ast.Name) and cls.id in self.env):
                     refs = self.a.res.resolve(cls, self.m)
+                else:
+                    refs = None
+                if refs is None or (isinstance(refs, tuple) and any(r is None for r in refs)):
+                    refs = self._class_refs(args[1])
+                if self.isinstance_fn is None or not isinstance(args[0], (Rec, PyModel, Ref, Opaque, LambdaVal, BoundMethod)):
+                    return self._isinstance(args[0], refs)      # native values: Python's own lattice
                 return self.isinstance_fn(args[0], refs)
             if fn.id == 'type':
+                if len(args) == 1:
+                    return self._type_of(args[0])
                 raise Unmodelled('type() call')
+            if fn.id in _DUNDER_OF and args and isinstance(args[0], Rec) and isinstance(args[0].f.get('cls'), str):
+                found, res = self._builtin_on_rec(fn.id, args)
+                if found:
+                    return res
             if fn.id == 'bool' and len(args) == 1 and isinstance(args[0], (Rec, PyModel)):
                 return self.truth(args[0]) if isinstance(args[0], Rec) else bool(args[0])
             for a_ in args:
@@ -703,14 +825,17 @@ class Interp:
                 raise ExcRaised(Ref(f'builtin:{type(exc).__name__}'))
         raise Unmodelled(f'call {text}(...) at line {n.lineno}')
 
-    def _inline(self, om, fnode, args, kwargs, closure=False, skip_first=False):
+    def _inline(self, om, fnode, args, kwargs, closure=False, skip_first=False, self_class=None):
+        if self.depth >= self.max_depth:
+            raise Unmodelled(f'inlining deeper than {self.max_depth} calls at {fnode.name}')
         params = [a.arg for a in fnode.args.posonlyargs + fnode.args.args]
+        first = params[0] if params else None
         if skip_first:
             params = params[1:]
         defaults = fnode.args.defaults
         env = dict(self.env) if closure else {}
         for p_, d in zip(params[len(params) - len(defaults):], defaults):
-            sub = Interp(self.a, om, {}, isinstance_fn=self.isinstance_fn, call_models=self.call_models)
+            sub = Interp(self.a, om, {}, isinstance_fn=self.isinstance_fn, call_models=self.call_models, world=self.world)
             env[p_] = sub.ev(d)
         for p_, a in zip(params, args):
             env[p_] = a
@@ -721,13 +846,19 @@ class Interp:
             kwargs = {k: v for k, v in kwargs.items() if k in params}
         for ko, kd in zip(fnode.args.kwonlyargs, fnode.args.kw_defaults):
             if ko.arg not in kwargs and kd is not None:
-                sub0 = Interp(self.a, om, {}, isinstance_fn=self.isinstance_fn, call_models=self.call_models)
+                sub0 = Interp(self.a, om, {}, isinstance_fn=self.isinstance_fn, call_models=self.call_models, world=self.world)
                 env[ko.arg] = sub0.ev(kd)
         env.update(kwargs)
         is_gen = any(isinstance(y, (ast.Yield, ast.YieldFrom)) for y in _walk_no_defs(fnode))
         sub = Interp(self.a, om, env, effect_receivers=self.effects if closure else (), isinstance_fn=self.isinstance_fn,
                      call_models=self.call_models, inline_pkg=self.inline_pkg, depth=self.depth + 1,
-                     self_class=self.self_class, record_unknown=self.record_unknown, scope_fn=self.scope_fn)
+                     self_class=self_class or self.self_class, record_unknown=self.record_unknown, scope_fn=fnode, world=self.world)
+        sub.scopes = [fnode] + (self.scopes if closure else [])
+        sub.dunder_truth = self.dunder_truth
+        sub.def_class = self.def_class if closure else self._def_class_of(om, fnode)
+        sub.first_param = self.first_param if closure else first
+        if closure:
+            sub.global_names = set(self.global_names)
         if is_gen:
             sub._yielded = []
         out = sub.run(fnode.body)
@@ -740,17 +871,29 @@ class Interp:
             return list(sub._yielded)
         return out.value if out.end == 'return' else None
 
-    def invoke(self, callee, args):
+    def invoke(self, callee, args, kwargs=None):
         """Apply a first-class callable value (lambda, model object, reference to a function) to arguments."""
+        kwargs = kwargs or {}
         if isinstance(callee, LambdaVal):
             params = [a.arg for a in callee.node.args.args]
             sub = Interp(self.a, self.m, dict(callee.env), effect_receivers=self.effects, isinstance_fn=self.isinstance_fn,
                          call_models=self.call_models, inline_pkg=self.inline_pkg, depth=self.depth + 1,
-                         self_class=self.self_class, record_unknown=self.record_unknown, scope_fn=self.scope_fn)
+                         self_class=self.self_class, record_unknown=self.record_unknown, scope_fn=self.scope_fn, world=self.world)
+            sub.scopes = list(self.scopes)
+            sub.dunder_truth = self.dunder_truth
+            for p_, d_ in zip(params[len(params) - len(callee.node.args.defaults):], callee.node.args.defaults):
+                sub.env[p_] = sub.ev(d_)
             sub.env.update(dict(zip(params, args)))
+            sub.env.update(kwargs)
             return sub.ev(callee.node.body)
         if isinstance(callee, PyModel) and callable(callee):
-            return callee(*args)
+            return callee(*args, **kwargs)
+        if isinstance(callee, BoundMethod):
+            key_ = f'{callee.cref}.{callee.fnode.name}'
+            if key_ in self.call_models:
+                return self.call_models[key_](callee.recv, *args, **kwargs)
+            return self._call_method(callee.recv if isinstance(callee.recv, Rec) else None, callee.cref, callee.module, callee.fnode,
+                                     list(args), kwargs)
         if isinstance(callee, Ref):
             if callee.ref in self.call_models:
                 return self.call_models[callee.ref](*args)
@@ -758,12 +901,24 @@ class Interp:
                 fn_ = {'bool': bool, 'int': int, 'float': float, 'str': str, 'len': len, 'abs': abs}[callee.ref.split(':')[1]]
                 if fn_ is bool and args and isinstance(args[0], Rec):
                     return self.truth(args[0])
-                return fn_(*args)
+                if args and isinstance(args[0], Rec) and isinstance(args[0].f.get('cls'), str):
+                    found, res = self._builtin_on_rec(callee.ref.split(':')[1], list(args))
+                    if found:
+                        return res
+                try:
+                    return fn_(*args)
+                except (ValueError, TypeError) as exc:
+                    raise ExcRaised(Ref(f'builtin:{type(exc).__name__}'))
             om, onode = self.a.res.lookup(callee.ref)
-            if isinstance(onode, ast.FunctionDef) and self.depth < 4:
-                if any(isinstance(d, ast.Name) and d.id == 'classmethod' for d in onode.decorator_list):
+            if isinstance(onode, ast.ClassDef):
+                return self._construct(callee.ref, list(args), kwargs)
+            if isinstance(onode, ast.FunctionDef) and self.depth < self.max_depth:
+                if self._decorated(onode, 'classmethod') or self._decorated(onode, 'staticmethod'):
+                    cref_ = callee.ref.rpartition('.')[0]
+                    if self._is_pkg_class(cref_):
+                        return self._call_method(None, cref_, om, onode, list(args), kwargs)
                     raise Unmodelled(f'call of classmethod {callee.ref} needs a model')
-                return self._inline(om, onode, list(args), {})
+                return self._inline(om, onode, list(args), kwargs)
         if callee is None:
             return self.truth(args[0]) if args else None
         raise Unmodelled(f'call of first-class value {callee!r}')
@@ -796,7 +951,11 @@ class Interp:
         if name in cache:
             return cache[name]
         from .flow import _stores
-        allb = _stores(self.scope_fn).get(name, ())
+        allb = ()
+        for sc_ in self.scopes:
+            allb = _stores(sc_).get(name, ())
+            if allb:
+                break
         binds = [x for x in allb if isinstance(x, ast.Name)] if len(allb) == 1 else list(allb) + [None]
         val = None
         if len(binds) == 1:
@@ -814,3 +973,515 @@ class Interp:
             return self.ev(node)
         except Unmodelled:
             return Opaque(ast.unparse(node)[:40])
+
+    # ------------------------------------------------------------------------------------------------------
+    # object model of the package: classes, methods, dunders, construction
+    # ------------------------------------------------------------------------------------------------------
+    def _is_pkg_class(self, ref):
+        if not ref or not ref.startswith('pkg:'):
+            return False
+        _, node = self.a.res.lookup(ref)
+        return isinstance(node, ast.ClassDef)
+
+    def _decorated(self, fnode, name):
+        for d in fnode.decorator_list:
+            t = d.func if isinstance(d, ast.Call) else d
+            if isinstance(t, ast.Name) and t.id == name:
+                return True
+            if isinstance(t, ast.Attribute) and t.attr == name:
+                return True
+        return False
+
+    def _def_class_of(self, om, fnode):
+        par = getattr(fnode, '_parent', None)
+        if isinstance(par, ast.ClassDef):
+            return self.a.res.class_ref(om, par)
+        return None
+
+    def _find_method(self, cref, name):
+        """(module, FunctionDef) of a method looked up through the MRO, following `__radd__ = __add__` aliases."""
+        cm, node = self.a.res.class_attr(cref, name)
+        hops = 0
+        while isinstance(node, ast.Name) and hops < 4:
+            cm, node = self.a.res.class_attr(cref, node.id)
+            hops += 1
+        if isinstance(node, ast.FunctionDef):
+            return cm, node
+        return None, None
+
+    def _call_method(self, recv, cref, cm, meth, args, kwargs):
+        """Call a method found on class `cref`: recv is the instance (None when called through the class)."""
+        if self._decorated(meth, 'staticmethod'):
+            full = list(args)
+        elif self._decorated(meth, 'classmethod'):
+            klass = recv.f['cls'] if isinstance(recv, Rec) and isinstance(recv.f.get('cls'), str) else cref
+            full = [Ref(klass)] + list(args)
+        elif recv is not None:
+            full = [recv] + list(args)
+        else:
+            full = list(args)     # plain function called through the class: the instance is the first argument
+        return self._inline(cm, meth, full, kwargs, self_class=cref)
+
+    def _dunder(self, recv, name, *args):
+        """(found, value): call the special method `name` of the abstract instance recv, when its class defines it."""
+        cref = recv.f.get('cls') if isinstance(recv, Rec) else None
+        if not isinstance(cref, str):
+            return False, None
+        key_ = f'{cref}.{name}'
+        if key_ in self.call_models:
+            return True, self.call_models[key_](recv, *args)
+        cm, meth = self._find_method(cref, name)
+        if meth is None:
+            return False, None
+        return True, self._call_method(recv, cref, cm, meth, list(args), {})
+
+    def _builtin_on_rec(self, name, args):
+        if name == 'bool':
+            return True, self.truth(args[0])
+        found, res = self._dunder(args[0], _DUNDER_OF[name], *args[1:])
+        if not found:
+            return False, None
+        if name in ('int', 'float', 'str', 'len', 'hash') and isinstance(res, Rec):
+            raise Unmodelled(f'{name}() of an abstract instance returns an abstract instance')
+        if name in ('list', 'tuple'):
+            return True, (list(res) if name == 'list' else tuple(res))
+        return True, res
+
+    def _class_level_attr(self, inst, cref, attr):
+        """Attribute of an abstract instance that is not an instance field: run-time class attribute, property, method, constant."""
+        if attr == '__class__':
+            return Ref(cref)
+        for cm_, cnode_ in self.a.res.mro(cref):
+            key_ = (self.a.res.class_ref(cm_, cnode_), attr)
+            if key_ in self.world.classattrs:
+                return self.world.classattrs[key_]
+        cm_, val_ = self.a.res.class_attr(cref, attr)
+        hops = 0
+        while isinstance(val_, ast.Name) and hops < 4 and self.a.res.class_attr(cref, val_.id)[1] is not None:
+            cm_, val_ = self.a.res.class_attr(cref, val_.id)
+            hops += 1
+        if isinstance(val_, ast.FunctionDef):
+            if self._decorated(val_, 'property') or self._decorated(val_, 'cached_property'):
+                key_ = f'{cref}.{attr}'
+                if key_ in self.call_models:
+                    return self.call_models[key_](inst)
+                return self._inline(cm_, val_, [inst], {}, self_class=cref)
+            return BoundMethod(inst, cm_, val_, cref)
+        if val_ is not None and not isinstance(val_, ast.ClassDef):
+            v_ = self.a.folder.fold(val_, cm_, None, cref)
+            if isinstance(v_, (dict, list, set)):
+                for cm2_, cnode2_ in self.a.res.mro(cref):
+                    if any(isinstance(st_, ast.Assign) and any(isinstance(t_, ast.Name) and t_.id == attr for t_ in st_.targets)
+                           for st_ in cnode2_.body):
+                        self.world.classattrs[(self.a.res.class_ref(cm2_, cnode2_), attr)] = v_
+                        break
+            return v_
+        return inst.get(attr)
+
+    def _type_of(self, v):
+        if isinstance(v, Rec) and isinstance(v.f.get('cls'), str):
+            return Ref(v.f['cls'])
+        if isinstance(v, (Rec, Opaque, Ref, PyModel, LambdaVal, BoundMethod)):
+            raise Unmodelled(f'type() of {v!r}')
+        return Ref('builtin:NoneType' if v is None else f'builtin:{type(v).__name__}')
+
+    def _class_refs(self, v):
+        """Flatten the second argument of isinstance (a class value or nested tuples of them) to a tuple of refs."""
+        if isinstance(v, Ref):
+            return (v.ref,)
+        if isinstance(v, (tuple, list)):
+            out = ()
+            for e in v:
+                out += self._class_refs(e)
+            return out
+        raise Unmodelled(f'isinstance against {v!r}')
+
+    def _isinstance(self, val, refs):
+        """Default class lattice: native values against builtin types, abstract instances against package classes
+        (through the MRO, external bases included), exception classes standing for their instances."""
+        refs = refs if isinstance(refs, tuple) else (refs,)
+        flat = ()
+        for r in refs:
+            flat += r if isinstance(r, tuple) else (r,)
+        if any(r is None for r in flat):
+            raise Unmodelled('isinstance against an unresolved class')
+        if isinstance(val, Opaque):
+            raise Unmodelled(f'isinstance of an opaque value {val!r}')
+        cls = None
+        if isinstance(val, Rec):
+            cls = val.f.get('cls')
+        elif isinstance(val, PyModel):
+            cls = getattr(val, 'cls', None)
+        elif isinstance(val, Ref) and not isinstance(val, bool):
+            cls = val.ref      # an exception class stands for an instance of it
+        if isinstance(cls, str):
+            if cls.startswith('pkg:'):
+                bases = set(self.a.res.base_refs(cls))
+                ext_exc = any(b.startswith('builtin:') for b in bases)
+                for r in flat:
+                    if r == cls or r in bases:
+                        return True
+                    if r in ('builtin:Exception', 'builtin:BaseException') and ext_exc:
+                        return True
+                    if r == 'builtin:object':
+                        return True
+                return False
+            if cls.startswith('builtin:'):
+                py = getattr(_builtins, cls[8:], None)
+                for r in flat:
+                    other = getattr(_builtins, r[8:], None) if r.startswith('builtin:') else None
+                    if isinstance(py, type) and isinstance(other, type) and issubclass(py, other):
+                        return True
+                return False
+            return any(r == cls for r in flat)
+        if isinstance(val, (Rec, PyModel, LambdaVal, BoundMethod)):
+            if isinstance(val, Rec) and 'cls' not in val.f:
+                raise Unmodelled('isinstance of an abstract record without a class')
+            return False
+        for r in flat:
+            if r == 'builtin:NoneType' and val is None:
+                return True
+            if r.startswith('builtin:'):
+                py = getattr(_builtins, r[8:], None)
+                if isinstance(py, type) and isinstance(val, py):
+                    return True
+        return False
+
+    def _binop(self, op, l, r):
+        name = _BINOP_DUNDER.get(type(op))
+        if isinstance(l, Rec) and isinstance(l.f.get('cls'), str) and name:
+            found, res = self._dunder(l, f'__{name}__', r)
+            if found and not (isinstance(res, Ref) and res.ref == 'builtin:NotImplemented'):
+                return res
+        if isinstance(r, Rec) and isinstance(r.f.get('cls'), str) and name:
+            found, res = self._dunder(r, f'__r{name}__', l)
+            if found and not (isinstance(res, Ref) and res.ref == 'builtin:NotImplemented'):
+                return res
+        if isinstance(l, (Opaque, Ref, Rec)) or isinstance(r, (Opaque, Ref, Rec)):
+            return Opaque('binop')
+        try:
+            return _BIN[type(op)](l, r)
+        except ZeroDivisionError:
+            raise ExcRaised(Ref('builtin:ZeroDivisionError'))
+        except OverflowError:
+            raise ExcRaised(Ref('builtin:OverflowError'))
+        except TypeError:
+            raise ExcRaised(Ref('builtin:TypeError'))
+
+    def _eq(self, a, b):
+        return self.truth(self._compare(ast.Eq(), a, b, None))
+
+    def _contains(self, container, item):
+        if isinstance(container, Rec):
+            found, res = self._dunder(container, '__contains__', item)
+            if found:
+                return self.truth(res)
+            raise Unmodelled(f'membership in {container!r}')
+        if isinstance(container, (Opaque, Ref)):
+            raise Unmodelled(f'membership in symbolic {container!r}')
+        if isinstance(item, Opaque):
+            raise Unmodelled('membership of an opaque value')
+        if isinstance(item, Rec) and isinstance(item.f.get('cls'), str) and not isinstance(container, str):
+            # `x in seq` is `any(x is e or x == e for e in seq)`; x == e goes through the class's __eq__
+            elems = list(container.keys()) if isinstance(container, dict) else list(container)
+            for e in elems:
+                if e is item or self._eq(item, e):
+                    return True
+            return False
+        if isinstance(container, (list, tuple)) and any(isinstance(e, Rec) and isinstance(e.f.get('cls'), str) for e in container):
+            for e in container:
+                if e is item or self._eq(item, e):
+                    return True
+            return False
+        try:
+            return item in container
+        except TypeError:
+            raise ExcRaised(Ref('builtin:TypeError'))
+
+    def _compare(self, op, left, right, node):
+        if isinstance(op, ast.Is):
+            return left is right or (isinstance(left, Ref) and isinstance(right, Ref) and left == right)
+        if isinstance(op, ast.IsNot):
+            return not (left is right or (isinstance(left, Ref) and isinstance(right, Ref) and left == right))
+        if isinstance(op, ast.In):
+            return self._contains(right, left)
+        if isinstance(op, ast.NotIn):
+            return not self._contains(right, left)
+        name, refl = _CMP_DUNDER[type(op)]
+        lrec = isinstance(left, Rec) and isinstance(left.f.get('cls'), str)
+        rrec = isinstance(right, Rec) and isinstance(right.f.get('cls'), str)
+        not_impl = lambda v: isinstance(v, Ref) and v.ref == 'builtin:NotImplemented'  # noqa: E731
+        if lrec:
+            found, res = self._dunder(left, name, right)
+            if found and not not_impl(res):
+                return res
+            if not found and isinstance(op, ast.NotEq):
+                found, res = self._dunder(left, '__eq__', right)
+                if found and not not_impl(res):
+                    return not self.truth(res)
+        if rrec:
+            found, res = self._dunder(right, refl, left)
+            if found and not not_impl(res):
+                return res
+            if not found and isinstance(op, ast.NotEq):
+                found, res = self._dunder(right, '__eq__', left)
+                if found and not not_impl(res):
+                    return not self.truth(res)
+        if isinstance(left, Opaque) or isinstance(right, Opaque):
+            raise Unmodelled(f'comparison with opaque value: {ast.unparse(node)[:60] if node is not None else ""}')
+        try:
+            return _CMP[type(op)](left, right)
+        except TypeError:
+            if (lrec or rrec) or isinstance(left, (Rec, Ref, PyModel)) or isinstance(right, (Rec, Ref, PyModel)):
+                raise Unmodelled(f'comparison {ast.unparse(node)[:60] if node is not None else ""} on {left!r},{right!r}')
+            raise ExcRaised(Ref('builtin:TypeError'))
+
+    # ------------------------------------------------------------------------------------------------------
+    def _dataclass_fields(self, ref):
+        """[(name, default node or None, init?)] of a dataclass, base classes first; None when the class is no dataclass."""
+        is_dc = False
+        fields = []
+        for m_, cnode in reversed(self.a.res.mro(ref)):
+            if any((isinstance(d, ast.Name) and d.id == 'dataclass') or (isinstance(d, ast.Attribute) and d.attr == 'dataclass')
+                   or (isinstance(d, ast.Call) and ((isinstance(d.func, ast.Name) and d.func.id == 'dataclass')
+                                                    or (isinstance(d.func, ast.Attribute) and d.func.attr == 'dataclass')))
+                   for d in cnode.decorator_list):
+                is_dc = True
+            for st in cnode.body:
+                if isinstance(st, ast.AnnAssign) and isinstance(st.target, ast.Name):
+                    init = True
+                    default = st.value
+                    if isinstance(st.value, ast.Call) and ((isinstance(st.value.func, ast.Name) and st.value.func.id == 'field')
+                                                           or (isinstance(st.value.func, ast.Attribute) and st.value.func.attr == 'field')):
+                        default = None
+                        for k in st.value.keywords:
+                            if k.arg == 'init' and isinstance(k.value, ast.Constant) and k.value.value is False:
+                                init = False
+                            if k.arg == 'default':
+                                default = k.value
+                            if k.arg == 'default_factory':
+                                default = ast.Call(func=k.value, args=[], keywords=[])
+                                ast.copy_location(default, st.value)
+                                ast.fix_missing_locations(default)
+                                default._module = m_
+                    fields = [f for f in fields if f[0] != st.target.id] + [(st.target.id, default, init, m_)]
+        return fields if is_dc else None
+
+    def _construct(self, ref, args, kwargs):
+        self.out.events.append(('construct', (ref,) + tuple(args)))
+        cm_new, new = self._find_method(ref, '__new__')
+        inst = None
+        if new is not None and self.depth < self.max_depth:
+            try:
+                inst = self._inline(cm_new, new, [Ref(ref)] + list(args), dict(kwargs), self_class=ref)
+            except Unmodelled:
+                inst = None
+            if inst is not None and not (isinstance(inst, Rec) and isinstance(inst.f.get('cls'), str)
+                                         and (inst.f['cls'] == ref or self.a.res.is_subclass(inst.f['cls'], ref))):
+                return inst
+        if inst is None:
+            inst = Rec(cls=ref)
+        inst.f.setdefault('args', tuple(args))
+        inst.f.setdefault('kwargs', kwargs)
+        fields = self._dataclass_fields(ref)
+        cm0, init0 = self._find_method(ref, '__init__')
+        if fields is not None and init0 is None:
+            names = [f[0] for f in fields if f[2]]
+            for name_, val_ in zip(names, args):
+                inst.set(name_, val_)
+            for name_, val_ in kwargs.items():
+                if name_ in names:
+                    inst.set(name_, val_)
+            for name_, default, init, m_ in fields:
+                if name_ not in inst.f and default is not None:
+                    try:
+                        inst.set(name_, Interp(self.a, m_, {}, isinstance_fn=self.isinstance_fn, call_models=self.call_models,
+                                               world=self.world).ev(default))
+                    except Unmodelled:
+                        pass
+            cmp_, post = self._find_method(ref, '__post_init__')
+            if post is not None and self.depth < self.max_depth and self.inline_pkg:
+                snapshot = dict(inst.f)
+                try:
+                    self._inline(cmp_, post, [inst], {}, self_class=ref)
+                except Unmodelled:
+                    inst.f.clear()
+                    inst.f.update(snapshot)
+                    self.out.events.append(('<init-unmodelled>', (ref,)))
+            return inst
+        if init0 is not None and self.depth < self.max_depth:
+            snapshot = dict(inst.f)
+            try:
+                self._inline(cm0, init0, [inst] + list(args), dict(kwargs), self_class=ref)
+                return inst
+            except Unmodelled:
+                inst.f.clear()
+                inst.f.update(snapshot)
+                self.out.events.append(('<init-unmodelled>', (ref,)))
+        # fallback: bind `self.x = <parameter>` assignments of the constructors syntactically
+        if fields is not None:
+            names = [f[0] for f in fields if f[2]]
+            for name_, val_ in zip(names, args):
+                inst.f.setdefault(name_, val_)
+            for name_, val_ in kwargs.items():
+                if name_ in names:
+                    inst.f.setdefault(name_, val_)
+        for ctor in ('__new__', '__init__'):
+            cm_, cfn = self._find_method(ref, ctor)
+            if cfn is not None:
+                params = [a.arg for a in cfn.args.args][1:]
+                bound = dict(zip(params, args))
+                bound.update(kwargs)
+                for st in ast.walk(cfn):
+                    if isinstance(st, ast.Assign) and len(st.targets) == 1 and isinstance(st.targets[0], ast.Attribute) \
+                            and isinstance(st.targets[0].value, ast.Name) and isinstance(st.value, ast.Name) \
+                            and st.value.id in bound and st.targets[0].attr not in inst.f:
+                        inst.set(st.targets[0].attr, bound[st.value.id])
+        return inst
+
+    def _super_call(self, attr, args, kwargs):
+        """super().attr(...) inside a method of def_class, for the run-time class of the receiver."""
+        if self.def_class is None or self.first_param is None or self.first_param not in self.env:
+            raise Unmodelled('super() outside a modelled method')
+        me = self.env[self.first_param]
+        runtime = me.f.get('cls') if isinstance(me, Rec) else (me.ref if isinstance(me, Ref) else None)
+        if not isinstance(runtime, str):
+            raise Unmodelled('super() with an unmodelled receiver')
+        chain = [self.a.res.class_ref(m_, c_) for m_, c_ in self.a.res.mro(runtime)]
+        if self.def_class not in chain:
+            raise Unmodelled('super(): defining class not in the MRO of the receiver')
+        rest = chain[chain.index(self.def_class) + 1:]
+        for nxt in rest:
+            m_, cnode = self.a.res.lookup(nxt)
+            for st in cnode.body:
+                if isinstance(st, ast.FunctionDef) and st.name == attr:
+                    if attr == '__new__' or self._decorated(st, 'staticmethod'):
+                        return self._inline(m_, st, list(args), kwargs, self_class=runtime)
+                    if self._decorated(st, 'classmethod'):
+                        return self._inline(m_, st, [Ref(runtime)] + list(args), kwargs, self_class=runtime)
+                    return self._inline(m_, st, [me] + list(args), kwargs, self_class=runtime)
+        # the next definition is outside the package (object, Exception, a library class)
+        ext = [b for b in self.a.res.base_refs(runtime) if not b.startswith('pkg:')]
+        if attr == '__new__':
+            cls_arg = args[0] if args and isinstance(args[0], Ref) else Ref(runtime)
+            if any(not b.startswith('builtin:') for b in ext):
+                raise Unmodelled(f'construction of a subclass of the library class {ext}')
+            return Rec(cls=cls_arg.ref)
+        if attr == '__init__':
+            if isinstance(me, Rec) and all(b.startswith('builtin:') for b in ext):
+                me.set('args', tuple(args))     # Exception.__init__ keeps its arguments
+                return None
+            raise Unmodelled(f'super().__init__ of the library class {ext}')
+        raise Unmodelled(f'super().{attr} resolves outside the package')
+
+    def _module_init(self, gref, obj):
+        """Import-time effects on a module-level container: plain decorators of the same module that store into it
+        (`@register` classes filling NATIVE_TO_XLTYPE) are replayed once, in source order."""
+        if gref in self.world.initialised:
+            return
+        self.world.initialised.add(gref)
+        _, mod, name = gref.split(':', 2)
+        m = self.a.repo.modules.get(mod)
+        if m is None or '.' in name:
+            return
+        writers = {}
+        for qual, fnode in m.funcs.items():
+            if '.' in qual:
+                continue
+            for x in ast.walk(fnode):
+                if isinstance(x, ast.Subscript) and isinstance(x.ctx, ast.Store) and isinstance(x.value, ast.Name) and x.value.id == name:
+                    writers[qual] = fnode
+        if not writers:
+            return
+        for om in self.a.repo.modules.values():
+            for node in om.tree.body:
+                if isinstance(node, (ast.ClassDef, ast.FunctionDef)):
+                    for d in reversed(node.decorator_list):
+                        if isinstance(d, (ast.Name, ast.Attribute)):
+                            r = self.a.res.resolve(d, om)
+                            if r and r.startswith(f'pkg:{mod}:') and r.split(':', 2)[2] in writers:
+                                target = Ref(f'pkg:{om.name}:{node.name}')
+                                sub = Interp(self.a, m, {}, isinstance_fn=self.isinstance_fn, call_models=self.call_models,
+                                             inline_pkg=True, depth=self.depth + 1, world=self.world)
+                                try:
+                                    sub._inline(m, writers[r.split(':', 2)[2]], [target], {})
+                                except (Unmodelled, ExcRaised):
+                                    raise Unmodelled(f'import-time initialisation of {gref} by @{r}')
+
+    def _with(self, s, i):
+        """with-statement, item i onwards. A context manager written as a generator (@contextmanager) is interpreted:
+        code before the yield, the body, code after the yield - an exception of the body is raised AT the yield."""
+        if i == len(s.items):
+            self.block(s.body)
+            return
+        item = s.items[i]
+        target = self._ctxmgr(item.context_expr)
+        if target is None:
+            val = self.ev(item.context_expr)
+            if item.optional_vars is not None:
+                self.store(item.optional_vars, val)
+            self._with(s, i + 1)
+            return
+        om, fnode, args, kwargs, self_class = target
+        pending = []
+        state = {'yielded': 0}
+
+        def on_yield(value):
+            state['yielded'] += 1
+            if state['yielded'] > 1:
+                raise Unmodelled('context manager yields twice')
+            if item.optional_vars is not None:
+                self.store(item.optional_vars, value)
+            try:
+                self._with(s, i + 1)
+            except (_Return, _Break, _Continue) as flow:
+                pending.append(flow)      # leaving the body normally: the manager resumes after the yield
+
+        params = [a.arg for a in fnode.args.posonlyargs + fnode.args.args]
+        env = dict(zip(params, args))
+        env.update(kwargs)
+        sub = Interp(self.a, om, env, isinstance_fn=self.isinstance_fn, call_models=self.call_models, inline_pkg=self.inline_pkg,
+                     depth=self.depth + 1, self_class=self_class, record_unknown=self.record_unknown, scope_fn=fnode, world=self.world)
+        sub.dunder_truth = self.dunder_truth
+        sub.def_class = self._def_class_of(om, fnode)
+        sub.first_param = params[0] if params else None
+        sub._on_yield = on_yield
+        try:
+            sub.block(fnode.body)
+        except _Return:
+            pass
+        finally:
+            self.out.events.extend(sub.out.events)
+        if not state['yielded']:
+            raise Unmodelled('context manager does not yield')
+        if pending:
+            raise pending[0]
+
+    def _ctxmgr(self, expr):
+        """(module, FunctionDef, args, kwargs, self_class) when expr calls a package generator decorated with contextmanager."""
+        if not isinstance(expr, ast.Call):
+            return None
+        fn = expr.func
+        om = fnode = None
+        first = []
+        self_class = self.self_class
+        if isinstance(fn, ast.Attribute):
+            recv = self._safe_ev(fn.value)
+            cref = None
+            if isinstance(recv, Rec) and isinstance(recv.f.get('cls'), str):
+                cref = recv.f['cls']
+            elif isinstance(fn.value, ast.Name) and fn.value.id in ('self', 'cls') and self.self_class:
+                cref = self.self_class
+            if cref:
+                om, fnode = self._find_method(cref, fn.attr)
+                if fnode is not None and not self._decorated(fnode, 'staticmethod'):
+                    first = [recv if isinstance(recv, Rec) else (self.env.get(fn.value.id) if isinstance(fn.value, ast.Name) else None)]
+                self_class = cref
+        if fnode is None and isinstance(fn, (ast.Name, ast.Attribute)):
+            ref = self.a.res.resolve(fn, self.m)
+            om, fnode = self.a.res.lookup(ref) if ref else (None, None)
+        if not isinstance(fnode, ast.FunctionDef) or not self._decorated(fnode, 'contextmanager'):
+            return None
+        args = first + [self.ev(a) for a in expr.args]
+        kwargs = {k.arg: self.ev(k.value) for k in expr.keywords if k.arg}
+        return om, fnode, args, kwargs, self_class
